@@ -34,6 +34,8 @@ pub enum FOp {
     Fill,
     ViewFill,
     CloneArr,
+    /// `a.clone_from(&b)` where b has a different shape
+    CloneFromOther { dc: i8, dr: i8 },
     CloneFromSlice,
     CloneFromToodee,
     ViewCloneFromSlice,
@@ -176,6 +178,15 @@ fn run_op<E: Elem + Clone + Default + Ord + Hash>(t: &mut TooDee<E>, k: &FaultCa
                 // keep the clone: both must stay valid; the original is dropped here
                 *t = n;
             })
+        }
+        FOp::CloneFromOther { dc, dr } => {
+            let (oc, or) = ((c as i64 + *dc as i64).max(0) as usize, (r as i64 + *dr as i64).max(0) as usize);
+            let (oc, or) = if oc == 0 || or == 0 { (0, 0) } else { (oc, or) };
+            let other = TooDee::from_vec(oc, or, mint_vec::<E>(oc * or));
+            elem::arm(fuse);
+            let res = catch(|| t.clone_from(&other));
+            elem::disarm();
+            res
         }
         FOp::CloneFromSlice | FOp::ViewCloneFromSlice => {
             let view = matches!(k.op, FOp::ViewCloneFromSlice);
@@ -443,6 +454,7 @@ fn op_tag(op: &FOp) -> String {
         FOp::Insert { axis, push, .. } => format!("{}{}", if *push { "push" } else { "insert" }, if *axis == Axis::Row { "_row" } else { "_col" }),
         FOp::Remove { axis, pop, .. } => format!("{}{}", if *pop { "pop" } else { "remove" }, if *axis == Axis::Row { "_row" } else { "_col" }),
         FOp::Sort { form, .. } => format!("sort{}", form % 11),
+        FOp::CloneFromOther { .. } => "clone_from".to_string(),
         other => format!("{:?}", other).to_lowercase(),
     }
 }
@@ -547,7 +559,7 @@ fn count_ticks<E: Elem + Clone + Default + Ord + Hash>(k: &FaultCase) -> u64 {
 }
 
 fn all_ops(cols: u8, rows: u8) -> Vec<FOp> {
-    let mut v = vec![FOp::New, FOp::Init, FOp::Fill, FOp::ViewFill, FOp::CloneArr, FOp::CloneFromSlice, FOp::CloneFromToodee, FOp::ViewCloneFromSlice, FOp::ViewCloneFromToodee, FOp::FromView, FOp::FromViewMut, FOp::Clear, FOp::EqSelf, FOp::HashSelf];
+    let mut v = vec![FOp::New, FOp::Init, FOp::Fill, FOp::ViewFill, FOp::CloneArr, FOp::CloneFromOther { dc: 0, dr: 0 }, FOp::CloneFromOther { dc: 1, dr: 0 }, FOp::CloneFromOther { dc: -1, dr: 1 }, FOp::CloneFromOther { dc: 0, dr: -1 }, FOp::CloneFromOther { dc: 2, dr: 2 }, FOp::CloneFromSlice, FOp::CloneFromToodee, FOp::ViewCloneFromSlice, FOp::ViewCloneFromToodee, FOp::FromView, FOp::FromViewMut, FOp::Clear, FOp::EqSelf, FOp::HashSelf];
     for axis in [Axis::Row, Axis::Col] {
         let dim = if axis == Axis::Row { rows } else { cols };
         for at in 0..=dim {
@@ -610,6 +622,7 @@ impl Prop for C11 {
         let axis = || prop_oneof![Just(Axis::Row), Just(Axis::Col)];
         let report = prop_oneof![6 => Just(Report::True), 2 => Just(Report::Expected), 1 => Just(Report::Zero), 1 => Just(Report::Max), 1 => Just(Report::HalfMax), 2 => (-2i8..4).prop_map(Report::Plus)];
         let op = prop_oneof![
+            2 => (-2i8..3, -2i8..3).prop_map(|(dc, dr)| FOp::CloneFromOther { dc, dr }),
             1 => Just(FOp::New), 1 => Just(FOp::Init), 1 => Just(FOp::Fill), 1 => Just(FOp::ViewFill), 1 => Just(FOp::CloneArr),
             1 => Just(FOp::CloneFromSlice), 1 => Just(FOp::CloneFromToodee), 1 => Just(FOp::ViewCloneFromSlice), 1 => Just(FOp::ViewCloneFromToodee),
             1 => Just(FOp::FromView), 1 => Just(FOp::FromViewMut), 1 => Just(FOp::Clear), 1 => Just(FOp::EqSelf), 1 => Just(FOp::HashSelf),
